@@ -40,6 +40,9 @@ pub struct GenCfg {
     /// draw some strings (patterns, pool and xattr names, format literals) from a vocabulary that
     /// looks like template placeholders or like device paths
     pub placeholder_strings: bool,
+    /// also use format escapes that the pinned code generator passes through verbatim and that
+    /// make the emitted program unreadable (`\\c`); such workloads are set aside when unreadable
+    pub risky_specials: bool,
     /// out of 4: how many tests are drawn from the "passes for most files" vocabulary (C16 wants
     /// records to be emitted; 0 = fully discriminating tests)
     pub likely_true: u64,
@@ -252,6 +255,7 @@ pub fn format_string(rng: &mut Rng, cfg: &GenCfg, newline: bool) -> String {
             0..=5 => s.push_str(*rng.pick(&PLAIN_FIELDS)),
             6 if cfg.rich_formats => s.push_str(*rng.pick(&RICH_FIELDS)),
             7 => s.push_str(*rng.pick(&SPECIALS)),
+            8 if cfg.risky_specials => s.push_str("\\c"),
             _ => {}
         }
         s.push_str(*rng.pick(&LITERALS));
@@ -265,6 +269,10 @@ pub fn format_string(rng: &mut Rng, cfg: &GenCfg, newline: bool) -> String {
     }
     if s.is_empty() {
         s.push_str("x");
+    }
+    if cfg.risky_specials && !s.contains("\\c") {
+        // `\c` (stop printing here) in the middle of the format, with more text after it
+        s.push_str("\\c tail ");
     }
     if newline {
         s.push_str("\\n");
